@@ -3,8 +3,8 @@
 From Coq Require Import List NArith.
 From Coq.Strings Require Import Byte.
 From Coq Require Import Extraction ExtrOcamlBasic.
-From GI Require Import Par.ParWork Par.ParCache.
+From GI Require Import Par.ParWork Par.ParCache Par.ParCacheProofs.
 Extraction Language OCaml.
 Extraction "extracted/par/model.ml" Byte.of_N Byte.to_N
   step run init_state enabled all_done phi safe_state
-  cstep crun cinit cenabled all_idle invisible psi.
+  cstep crun cinit cenabled all_idle invisible psi kcL.
